@@ -62,6 +62,26 @@ fn all_deque_ops() -> Vec<Op> {
 }
 
 pub fn profile(prop: &str) -> Option<Profile> {
+    // "<ID>big": the profile of <ID> at capacity 40 only (size thresholds inside the crate)
+    if prop.len() == 6 && prop.ends_with("big") && prop != "C17big" {
+        let mut q = profile(&prop[..3])?;
+        q.only_n = vec![40];
+        q.prop = match &prop[..3] {
+            "C01" => "C01big",
+            "C03" => "C03big",
+            "C05" => "C05big",
+            "C06" => "C06big",
+            "C07" => "C07big",
+            "C08" => "C08big",
+            "C09" => "C09big",
+            "C10" => "C10big",
+            "C12" => "C12big",
+            "C13" => "C13big",
+            "C20" => "C20big",
+            _ => return None,
+        };
+        return Some(q);
+    }
     let p = |prop: &'static str, focus: &[Op], family: Family, focus_bias: u32, junk: u32| Profile { prop, focus: focus.to_vec(), family, focus_bias, junk_args: junk, only_n: Vec::new() };
     Some(match prop {
         "C01" => p("C01", MUTATORS, Family::None, 60, 25),
